@@ -126,6 +126,27 @@ def run(tier, seed):
                                 if bad:
                                     mm_val.append({"cls": cls.__name__, "mask": mask, "dims": dims, "what": bad,
                                                    "model": m[0], "impl": flat(y[b])})
+    # ---- bit-for-bit: an identity feature holding -0.0 (or a subnormal) comes back with its sign bit, in both directions
+    for cls, kw in ((cp.AdditiveCouplingTransform, {}), (cp.AffineCouplingTransform, {"scale_activation": (lambda v: v + 3.0)})):
+        for pat in ((0, 1, 0, 1), (1, 0, 0), (0, 1)):
+            for dims in (2, 4):
+                t = cls(mask_values(pat), lambda i, o: RecNet(i, o), **kw)
+                shape = [2, len(pat)] if dims == 2 else [2, len(pat), 2, 2]
+                x = torch.full(shape, -0.0, dtype=torch.float64)
+                x[1] = 5e-324
+                x[:, t.transform_features] = 1.5
+                ck.case(("negative-zero", cls.__name__, pat, dims), nontrivial=True)
+                for direction in ("forward", "inverse"):
+                    r = attempt(getattr(t, direction), x)
+                    if r[0] != "ok":
+                        continue
+                    yi, xi = r[1][0][:, t.identity_features], x[:, t.identity_features]
+                    if not torch.equal(yi, xi) or not torch.equal(torch.signbit(yi), torch.signbit(xi)):
+                        ck.finding("coupling:identity-features-changed:bits:%s" % cls.__name__,
+                                   "mask %s, %d-D, %s: identity features holding -0.0 / 5e-324 come back as %s (sign bits %s)"
+                                   % (pat, dims, direction, yi.reshape(-1)[:4].tolist(), torch.signbit(yi).reshape(-1)[:4].tolist()),
+                                   {"search": "negative-zero", "cls": cls.__name__, "mask": list(pat), "dims": dims, "direction": direction})
+                        break
     # ---- a layer restored from another layer's state (same split sizes, another pattern: the two alternating masks of a
     # RealNVP stack): the two index sets still partition the features, the restored layer splits as its donor does, and the
     # identity half passes through it unchanged
